@@ -40,7 +40,7 @@ AXES = {
 
 
 def allow(ev):
-    if ev.d.get("sub") == "literal" and ev.fn.name == "get_P_from_A" and "np.ones" in ev.text():
+    if ev.d.get("sub") == "literal" and ev.fn.name == "get_P_from_A" and "lb" in ev.text():      # `1 + lb` in any spelling
         return "unit generators of the unbounded cone: the direction set of a cone does not depend on the scale (E7)"
     return None
 
